@@ -49,6 +49,8 @@ VF_HARNESS(element_transformed_reference) {   // f yields a reference: writes th
   int x = vf_nondet_int();
   elem_brackets(t, i) = x;
   vf_assert(g_e[c].b == x && g_e[c].a == 100 + c, "a write through the transformed view reaches exactly the source element");
+  { auto rt = v().element_transformed([](E& e) -> int& { return e.b; });    // the && overload
+    vf_assert(same_sizes(rt, s) && &elem_brackets(rt, i) == &g_e[c].b, "element_transformed on an rvalue view: extents kept, same elements designated"); }
   vf_reach("element_transformed_reference");
 }
 VF_HARNESS(member_cast_designates_member) {
@@ -64,6 +66,8 @@ VF_HARNESS(member_cast_designates_member) {
   vf_assert(&elem_brackets(m, i) == &g_e[c].b && &elem_paren(m, i) == &g_e[c].b, "member_cast designates exactly the named member of each element");
   auto const& cv = v; auto cm = cv.member_cast<int>(&E::a);
   vf_assert(&elem_brackets(cm, i) == &g_e[c].a, "member_cast on a const view designates the member");
+  { auto rm = v().member_cast<int>(&E::b); auto mm = std::move(v).member_cast<int>(&E::b);   // the && overload
+    vf_assert(rm.layout() == m.layout() && rm.base() == m.base() && mm.layout() == m.layout() && mm.base() == m.base(), "member_cast on an rvalue view gives the same view"); }
   vf_reach("member_cast_designates_member");
 }
 VF_HARNESS(reinterpret_in_place) {   // reinterpret_array_cast<U>(): each element reinterpreted in place; const/as_const/static casts keep identity
